@@ -75,3 +75,8 @@ Definition run16_style (c : case16) (a : style_arg) : sx :=
       L [ sx_res sx_hlines (nfi SRoot a true); sx_res sx_hlines (nfi SRoot a false) ] ].
 
 Definition run16 (c : case16) : sx := L (map (run16_style c) (c_styles c)).
+
+(* one harness case = the states of ONE tree object at the moments it was
+   formatted (query - mutate - query again; generators consumed late): the
+   model is a pure function of the state at call time, so it is run on each *)
+Definition run16m (cs : list case16) : sx := L (map run16 cs).
